@@ -1,12 +1,88 @@
+import sys, os
+sys.path.insert(0, os.path.dirname(os.path.dirname(os.path.abspath(__file__))))
+from symex import sched, summaries, stubs
+import importlib.util
+_spec = importlib.util.spec_from_file_location("c03prop", os.path.join(os.path.dirname(os.path.abspath(__file__)), "c03.py"))
+_c03 = importlib.util.module_from_spec(_spec)
+_spec.loader.exec_module(_c03)
 ID = "C09"
-PATTERNS = ["./net/ntp"]
-HARNESS_FILES = ["net/ntp/zz_verif_c09.go"]
+PATTERNS = ["./net/ntp", "./core/server"]
+HARNESS_FILES = ["net/ntp/zz_verif_c09.go", "core/server/zz_verif_c06.go", "core/server/zz_verif_c09.go", "core/server/zz_verif_c09_metrics.go"]
 P = "example.com/scion-time/net/ntp."
+S = "example.com/scion-time/core/server."
+EXEC_PKGS = ["net", "net/netip", "internal/byteorder"]
+REDIRECT = {
+    "(*net.UDPConn).Close": S + "c09Close",
+    "(*net.UDPConn).WriteToUDPAddrPort": S + "c09Write",
+    "(*net.UDPConn).ReadMsgUDPAddrPort": S + "c09Read",
+    "example.com/scion-time/net/udp.EnableTimestamping": S + "c09EnableTimestamping",
+    "example.com/scion-time/net/udp.SetDSCP": S + "c09SetDSCP",
+    "example.com/scion-time/net/udp.TimestampLen": S + "c09TimestampLen",
+    "example.com/scion-time/net/udp.ReadTXTimestamp": S + "c09ReadTXTimestamp",
+    "example.com/scion-time/net/udp.TimestampFromOOBData": S + "c09TimestampFromOOB",
+}
+EXTRA_ENTRIES = sorted(set(REDIRECT.values()))
+
+
+def install_listener(E):
+    _c03.REDIRECT_SAVED = dict(_c03.REDIRECT)
+    _c03.REDIRECT.clear()
+    _c03.REDIRECT.update(REDIRECT)
+    try:
+        _c03.install_net(E)
+    finally:
+        _c03.REDIRECT.clear()
+        _c03.REDIRECT.update(_c03.REDIRECT_SAVED)
+
+    def addr_string(E, name, args, ins):
+        ip = args[0]
+        import z3
+        from symex.vals import StrSort, BV64, Str
+        f = E.ghost.setdefault("addr_str_uf", z3.Function("addr_str", BV64, BV64, StrSort))
+        t = f(ip.f[0].f[0], ip.f[0].f[1])
+        return Str(None, t, E.strlen(t))
+    E.intercepts["(net/netip.Addr).String"] = addr_string
+
+
+def native_feasible(E):
+    """side conditions under which a counterexample can be played through real loopback sockets"""
+    import z3
+    cs = []
+    for nm, inp in E.inputs.items():
+        base = nm.split("@")[0]
+        t = inp["term"]
+        if base in ("dg.readerr", "write.fails"):
+            cs.append(z3.Not(t))
+        elif base == "dg.flags":
+            cs.append(t == 0)
+        elif base == "dg.src.ip":
+            k = int(nm.split("@")[1]) if "@" in nm else 0
+            if k % 4 == 0:
+                cs.append(t == 127)
+            elif k % 4 == 3:
+                cs.append(z3.And(z3.UGE(t, 2), z3.ULE(t, 250)))
+        elif base == "dg.src.port":
+            cs.append(z3.And(z3.UGE(t, 20000), z3.ULE(t, 60000)))
+    return cs
+
+
+LISTENER_CFG = {"time_mode": "pair", "opaque_globals": _c03.NETIP_GLOBALS + [S + "tssMetrics"], "default_unwind": 6,
+                "prune_skip": [S + "handleRequest"],
+                "unwind": {S + "handleRequest": 3, S + "updateTXTimestamp": 3, "container/heap.up": 3, "container/heap.down": 3, S + "runIPServer": 4}}
+LISTENER_INSTALL = [sched.install, stubs.install_aead, install_listener, summaries.install_time64_summary]
+RO = {"core/server/server_test.go": "core/server/zz_empty_server_test.go.txt"}
 HARNESSES = [
     {"name": "validate", "fn": P + "VerifC09ValidateRequest", "bounds": "every header (all 256 first bytes symbolically), every source port"},
     {"name": "replynotrequest", "fn": P + "VerifC09ReplyNotARequest", "bounds": "every header"},
 ]
-ASSUMPTIONS = []
+HARNESSES += [
+    {"name": "listener1", "fn": S + "VerifC09Listener1", "cfg": LISTENER_CFG, "install": LISTENER_INSTALL, "replay_overlay": RO, "native_feasible": native_feasible,
+     "bounds": "IP listener, one arbitrary datagram of 0..56 bytes from an arbitrary source, arbitrary read errors / flags / kernel stamps / write failure"},
+    {"name": "listener2", "fn": S + "VerifC09Listener2", "cfg": dict(LISTENER_CFG, unwind=dict(LISTENER_CFG["unwind"], **{S + "runIPServer": 5})), "install": LISTENER_INSTALL, "replay_overlay": RO, "native_feasible": native_feasible,
+     "bounds": "IP listener, two arbitrary datagrams (the second is answered correctly whatever the first was)", "thorough_only": True},
+]
+ASSUMPTIONS = ["socket and kernel-timestamp functions of the IP listener are redirected to adversary functions in the harness; counterexamples are re-solved under replayability side conditions (loopback source address, no forced I/O errors) and replayed through real loopback sockets against the real listener",
+               "datagrams up to 56 bytes: too short to carry a valid NTS request, so every datagram longer than 48 bytes must stay unanswered; the authenticated branch and the SCION listener are not covered"]
 EXPLANATION = ""
 CLAIMED = True
 LEVEL_TEXT = "Bounded model checking (all inputs, no loop) of ntp.ValidateRequest against the predicate of the property text over every header and port, of the anti-reflection facts (no server-mode packet and no packet passing ValidateResponseMetadata is a valid request) and of the reply header bytes the server builds."
